@@ -56,8 +56,11 @@ def bounds(tier):
 
 def body(decider, strategy, jobs, nbits, script, mutset, checker_fn,
          oracle='first'):
+    # C02 compares with a second run on the re-parsed output, whose node ids
+    # (hence the numbers in x<id>__fresh) differ: names modulo that number
     env = SC.setup(decider, strategy, jobs, nbits, script, mutset,
-                   oracle=oracle, maxwrites=12 if oracle == 'first' else 40)
+                   oracle=oracle, maxwrites=12 if oracle == 'first' else 40,
+                   norm_fresh=(checker_fn is SC.check_fixed_point))
     try:
         try:
             final = SC.run_strategy(env, strategy)
@@ -74,7 +77,7 @@ def make_run(strategy, jobs, script, mutset, tier,
     b = bounds(tier)
     V = b['V'] if jobs == 1 else b['Vpar']
     S = b['S']
-    if oracle in ('req', 'same'):
+    if oracle in ('req', 'same', 'shape'):
         V = len(SC.KEYS[script])        # one bit per key token
         S = b['Sreq']
     elif oracle.startswith('hash'):
@@ -109,7 +112,7 @@ CONFIGS = [
     ('hierarchical', 'd', 'mix'), ('hierarchical', 'c', 'erase'),
     ('ddmin', 'a', 'core'), ('ddmin', 'b', 'mix'), ('ddmin', 'c', 'erase'),
     ('ddmin', 'd', 'mix'), ('hierarchical', 'b', 'elim'),
-    ('ddmin', 'b', 'elim'),
+    ('ddmin', 'b', 'elim'), ('ddmin', 'k', 'consts'),
 ]
 
 
@@ -155,6 +158,16 @@ def partitions(tier):
                                              'oracle': 'hash-classes',
                                              'S': b['S'],
                                              'pinned_first_bits': list(pin)}})
+                if sc == 'k' and j > 1 and (not pin or sum(pin) == 0):
+                    parts.append({'name': (nm if not pin else nm[:nm.rindex('_p')]) + '_shape', 'kind': 'choices',
+                                  'run': make_run(st, j, sc, ms, tier, pin=(),
+                                                  oracle='shape'),
+                                  'budget_s': 170 if tier == 'quick' else 850,
+                                  'bounds': {'strategy': st, 'script': sc,
+                                             'mutators': ms, 'jobs': j,
+                                             'oracle': 'same-shape',
+                                             'S': b['S'],
+                                             'pinned_first_bits': list(pin)}})
                 parts.append({'name': nm, 'kind': 'choices',
                               'run': make_run(st, j, sc, ms, tier, pin=pin),
                               'budget_s': 170 if tier == 'quick' else 850,
@@ -169,13 +182,13 @@ def partitions(tier):
 def replay(part, cex, checker_fn=SC.check_chain):
     import os
     st, sc, ms, j = part.split('_')[:4]
-    oracle = 'req' if part.endswith('_req') else 'same' if part.endswith('_same') else (
+    oracle = 'req' if part.endswith('_req') else 'same' if part.endswith('_same') else 'shape' if part.endswith('_shape') else (
         part[part.rindex('_') + 1:] if '_hash' in part else 'first')
     tier = os.environ.get('VERIF_TIER_REPLAY', 'quick')
     b = bounds(tier)
     jobs = int(j[1:])
     V = b['V'] if jobs == 1 else b['Vpar']
-    if oracle in ('req', 'same'):
+    if oracle in ('req', 'same', 'shape'):
         V = len(SC.KEYS[sc])
     elif oracle.startswith('hash'):
         V = b['Vhash']
